@@ -64,7 +64,15 @@ Fixpoint dec_wexpr (fuel : nat) (j : json) : res wexpr :=
     else if k == "mem" then a <- sub "a" ;; m <- getnat "m" j ;; Ok (WMem a m)
     else if k == "swz" then a <- sub "a" ;; pj <- get "p" j ;; p <- jnatl pj ;; Ok (WSwz a p)
     else if k == "conv" then t <- getstr "t" j ;; s <- dec_ws t ;; a <- sub "a" ;; Ok (WConv s a)
-    else if k == "bitcast" then t <- getstr "t" j ;; s <- dec_ws t ;; a <- sub "a" ;; Ok (WBitcast s a)
+    else if k == "bitcast" then
+      (* the target is a scalar type or (vector bitcasts between integer vectors of one width) ["vec", n, scalar]:
+         WBitcast is component-wise (Sem.v lifts bitcast_scalar over vectors), so the component type is what it needs *)
+      s <- match field "t" j with
+           | Some (JStr t) => dec_ws t
+           | Some (JArr [JStr v; JNum _; JStr t]) => if v == "vec" then dec_ws t else Err "bitcast target type"
+           | _ => Err "bitcast target type"
+           end ;;
+      a <- sub "a" ;; Ok (WBitcast s a)
     else if k == "addr" then a <- sub "a" ;; Ok (WAddr a)
     else if k == "deref" then a <- sub "a" ;; Ok (WDeref a)
     else if k == "arraylen" then a <- sub "a" ;; Ok (WArrayLen a)
